@@ -250,7 +250,8 @@ func MakeHole(ctx context.Context, listenConn *net.UDPConn, m *msg.NatHoleResp, 
 		lConn *net.UDPConn
 		raddr *net.UDPAddr
 	}
-	resultCh := make(chan result)
+	// buffered: the first detection must not be lost when it happens before the select below is reached
+	resultCh := make(chan result, 1)
 	for _, conn := range listenConns {
 		go func(lConn *net.UDPConn) {
 			addr, err := waitDetectMessage(ctx, lConn, m.Sid, key, timeout, m.DetectBehavior.Role)
